@@ -40,6 +40,7 @@ const SAT_SRC: &[&str] = &[
     "satisfying(\\x -> 0)",
     "satisfying(\\x -> x is int)",
     "satisfying(\\x -> throw \"no\")",
+    "satisfying(\\x -> (x is list and len(x) > 0 and x[0] is int))",
 ];
 const STRUCT_ARITY: &[usize] = &[1, 2, 3];
 const PRELUDE: &str = "struct S0(f0a); struct S1(f1a, f1b); struct S2(f2a, f2b, f2c = 9);";
@@ -1053,7 +1054,7 @@ impl Stmt {
 }
 /// declared type + initial value of a history variable
 fn hist_var(rng: &mut Rng) -> (Ty, V) {
-    match rng.below(14) {
+    match rng.below(16) {
         0 | 1 => (Ty::Int, V::Int(rng.range(-2, 9) as i128)),
         2 => (Ty::Number, if rng.chance(1, 2) { V::Int(2) } else { V::Rat(1, 2) }),
         3 => (Ty::Rational, V::Rat(rng.range(1, 5), 2)),
@@ -1065,6 +1066,7 @@ fn hist_var(rng: &mut Rng) -> (Ty, V) {
         10 => (Ty::Sat(1), V::List(vec![V::Int(1), V::Int(2)])),
         11 => (Ty::Sat(4), V::Int(7)),
         12 => (Ty::Struct(1), V::Inst(1, vec![V::Int(1), V::Int(2)])),
+        13 | 14 => (Ty::Sat(6), V::List(vec![V::Int(1), V::Int(2), V::Int(3)])),
         _ => (Ty::Any, V::List(vec![V::Int(4), V::Str("a".into())])),
     }
 }
@@ -1088,6 +1090,11 @@ fn hist_val(rng: &mut Rng, t: &Ty) -> V {
         Ty::Str => V::Str(rng.pick(&["", "u", "vw"]).to_string()),
         Ty::List => V::List((0..rng.below(4)).map(|_| V::Int(rng.range(0, 9) as i128)).collect()),
         Ty::Sat(1) => V::List((0..1 + rng.below(3)).map(|_| V::Int(rng.range(0, 9) as i128)).collect()),
+        Ty::Sat(6) => match rng.below(5) {
+            0 => V::List(vec![]),
+            1 => V::List(vec![V::Str("t".into()), V::Int(1)]),
+            _ => V::List((0..1 + rng.below(3)).map(|_| V::Int(rng.range(0, 9) as i128)).collect()),
+        },
         Ty::Dict => if rng.chance(1, 2) { V::Dict(vec![]) } else { V::Dict(vec![(V::Str("j".into()), V::Int(2))]) },
         Ty::Struct(s) => {
             let sid = if rng.chance(1, 5) { 0 } else { *s };
